@@ -181,3 +181,52 @@ def sweep_ellipsoid(rnd, invf_lo=150.0, invf_hi=400.0):
     if rnd.random() < 0.5:
         return SHIPPED_ELLIPSOIDS[rnd.randrange(4)]
     return {"a": rnd.uniform(6.3e6, 6.4e6), "invf": rnd.uniform(invf_lo, invf_hi)}
+
+
+_PRIMES = [2, 3, 5, 7, 11, 13, 17, 19, 23, 29, 31, 37, 41, 43, 47, 53]
+
+
+def _radical_inverse(i, base):
+    f, r = 1.0, 0.0
+    while i > 0:
+        f /= base
+        r += f * (i % base)
+        i //= base
+    return r
+
+
+def fill(salt, dims, build, n_quick, n_thorough):
+    """Quasi-random fill of the whole quantifier as an enumeration: point i of a Halton sequence in `dims` dimensions (bases = the
+    first primes; a seeded Cranley-Patterson shift per dimension and a seeded start index make each VERIF_SEED a different, equally
+    even point set) is handed to build(u) -> case (or None to skip), u in [0, 1)^dims.  Where random draws hit a region of measure
+    p with probability 1 - exp(-n p), a low-discrepancy set of n points covers every box-shaped region of measure >> log(n)^d / n;
+    evaluation costs no generator overhead, so n can be 10 - 100 times what the Hypothesis sub-checks draw in the same time.
+    A failing point is its own replay case (nothing to shrink: the case is the point)."""
+    if dims > len(_PRIMES):
+        raise ValueError("fill: too many dimensions")
+
+    def enum(tier, seed, shard, nshards):
+        import random
+        rnd = random.Random(1000003 * int(seed) + salt)
+        shift = [rnd.random() for _ in range(dims)]
+        start = rnd.randrange(1000, 100000)
+        n = n_thorough if tier == "thorough" else n_quick
+        for i in range(shard, n, nshards):
+            u = [(_radical_inverse(start + i, _PRIMES[d]) + shift[d]) % 1.0 for d in range(dims)]
+            c = build(u)
+            if c is not None:
+                yield c
+    return enum
+
+
+def u_pick(u, seq):
+    """Element of seq selected by u in [0, 1), and the remainder of u rescaled to [0, 1) (so one coordinate can serve twice)."""
+    k = min(int(u * len(seq)), len(seq) - 1)
+    return seq[k], u * len(seq) - k
+
+
+def u_ellipsoid(u1, u2, invf_lo=150.0, invf_hi=400.0):
+    """Half shipped ellipsoids, half arbitrary Earth-like ones, from two unit coordinates."""
+    if u1 < 0.5:
+        return SHIPPED_ELLIPSOIDS[min(int(u1 * 8), 3)]
+    return {"a": 6.3e6 + (u1 - 0.5) * 2 * 1e5, "invf": invf_lo + u2 * (invf_hi - invf_lo)}
